@@ -13,6 +13,7 @@ import ModVerif.Proofs.EditSpecSort
 import ModVerif.Proofs.EditSpecCmp
 import ModVerif.Model.Modfile.EditAbs
 import ModVerif.Proofs.EditModel
+import ModVerif.Proofs.EditRefineExact
 namespace ModVerif.Props.C16
 open ModVerif ModVerif.EditSpec ModVerif.Modfile
 
@@ -61,6 +62,84 @@ theorem setRequire_one_per_path (V : Validity) (f : AbsFile) (want : List Req)
           have := h1 r hr; simp [this]
         simp [List.filter, hx, ih h2 hr]
   rw [this]
+
+
+/-! ### The exact-set postcondition on the MODEL's typed lists
+
+    `perm` is Go's map-iteration order (any function returning a permutation of its argument — both orders the
+    driver exercises, `Edit.permOf false/true`, are instances); `Edit.GoodWant want` = pairwise distinct, non-empty
+    requested paths; `Edit.TInv e` = the line-id invariant of Proofs/EditRefineAbs.lean (it holds for every loaded
+    well-formed file and is preserved by every operation, `Props.C08.applyMod_refines_step`).
+    The typed lists are read after Cleanup (`absOf (cleanup e')`). -/
+
+/-- **setRequire_exact.**  After `SetRequire want` (+ Cleanup) the typed requirements are exactly the requested
+    ones: the same multiset; exactly one entry per requested path, with the requested version and indirect marking;
+    no entry for any other path — for EVERY map-iteration order. -/
+theorem setRequire_exact (e e' : Edit.EFile) (want : List Edit.Want) (perm : List Edit.Want → List Edit.Want)
+    (hperm : ∀ l, (perm l).Perm l) (hg : Edit.GoodWant want) (hi : Edit.TInv e) (h : Edit.setRequire e want perm = .ok e') :
+    (Edit.absOf (Edit.cleanup e').f).require.Perm (want.map Edit.Want.toReq) ∧
+    (∀ w ∈ want, (Edit.absOf (Edit.cleanup e').f).require.filter (fun r => r.path == w.path) = [w.toReq]) ∧
+    (∀ r ∈ (Edit.absOf (Edit.cleanup e').f).require, ∃ w ∈ want, r = w.toReq) :=
+  Edit.setRequire_exact e e' want perm hperm hg hi h
+
+/-- **setRequireSeparateIndirect_exact.** -/
+theorem setRequireSeparateIndirect_exact (e e' : Edit.EFile) (want : List Edit.Want) (perm : List Edit.Want → List Edit.Want)
+    (hperm : ∀ l, (perm l).Perm l) (hg : Edit.GoodWant want) (hi : Edit.TInv e)
+    (h : Edit.setRequireSeparateIndirect e want perm = .ok e') :
+    (Edit.absOf (Edit.cleanup e').f).require.Perm (want.map Edit.Want.toReq) ∧
+    (∀ w ∈ want, (Edit.absOf (Edit.cleanup e').f).require.filter (fun r => r.path == w.path) = [w.toReq]) ∧
+    (∀ r ∈ (Edit.absOf (Edit.cleanup e').f).require, ∃ w ∈ want, r = w.toReq) :=
+  Edit.setRequireSeparateIndirect_exact e e' want perm hperm hg hi h
+
+/-- **setUse_exact.** -/
+theorem setUse_exact (e e' : Edit.EWork) (dirs : List (Bytes × Bytes)) (perm : List (Bytes × Bytes) → List (Bytes × Bytes))
+    (hperm : ∀ l, (perm l).Perm l) (hg : Edit.GoodUse dirs) (hi : Edit.WInv e) (h : Edit.setUse e dirs perm = .ok e') :
+    (Edit.absOfWork (Edit.workCleanup e').f).use.Perm (dirs.map Prod.fst) ∧
+    (∀ d ∈ dirs, (Edit.absOfWork (Edit.workCleanup e').f).use.filter (fun u => u == d.1) = [d.1]) ∧
+    (∀ u ∈ (Edit.absOfWork (Edit.workCleanup e').f).use, ∃ d ∈ dirs, u = d.1) :=
+  Edit.setUse_exact e e' dirs perm hperm hg hi h
+
+/-- **perm_independent (partial: typed lists).**  Two runs of a bulk setter that differ only in the map-iteration
+    order succeed or fail together, and leave the same typed lists: every list equal, the requirements (uses) the same
+    multiset — equal per path.  Missing for the full statement (`Format` of the two trees is the same byte string):
+    that the new lines all land in one block and `SortBlocks` puts them in token order
+    (`sort_lineLess_perm_invariant` below is the list-level half). -/
+theorem perm_independent_partial (e : Edit.EFile) (w : Edit.EWork) (want : List Edit.Want) (dirs : List (Bytes × Bytes))
+    (p1 p2 : List Edit.Want → List Edit.Want) (q1 q2 : List (Bytes × Bytes) → List (Bytes × Bytes))
+    (hp1 : ∀ l, (p1 l).Perm l) (hp2 : ∀ l, (p2 l).Perm l) (hq1 : ∀ l, (q1 l).Perm l) (hq2 : ∀ l, (q2 l).Perm l)
+    (hg : Edit.GoodWant want) (hu : Edit.GoodUse dirs) (hi : Edit.TInv e) (hw : Edit.WInv w) :
+    (Edit.setRequire e want p1).isOk = (Edit.setRequire e want p2).isOk ∧
+    (∀ e1 e2, Edit.setRequire e want p1 = .ok e1 → Edit.setRequire e want p2 = .ok e2 →
+      Rel (Edit.absOf (Edit.cleanup e1).f) (Edit.absOf (Edit.cleanup e2).f)) ∧
+    (∀ e1 e2, Edit.setRequireSeparateIndirect e want p1 = .ok e1 → Edit.setRequireSeparateIndirect e want p2 = .ok e2 →
+      Rel (Edit.absOf (Edit.cleanup e1).f) (Edit.absOf (Edit.cleanup e2).f)) ∧
+    (∀ w1 w2, Edit.setUse w dirs q1 = .ok w1 → Edit.setUse w dirs q2 = .ok w2 →
+      Rel (Edit.absOfWork (Edit.workCleanup w1).f) (Edit.absOfWork (Edit.workCleanup w2).f)) :=
+  ⟨Edit.setRequire_ok_indep e want p1 p2,
+   fun e1 e2 h1 h2 => Edit.setRequire_perm_independent e e1 e2 want p1 p2 hp1 hp2 hg hi h1 h2,
+   fun e1 e2 h1 h2 => Edit.setRequireSeparateIndirect_perm_independent e e1 e2 want p1 p2 hp1 hp2 hg hi h1 h2,
+   fun w1 w2 h1 h2 => Edit.setUse_perm_independent w w1 w2 dirs q1 q2 hq1 hq2 hu hw h1 h2⟩
+
+/-- both driver orders are permutations (so the theorems above apply to `Op.setRequire _ rev` for both `rev`) -/
+theorem permOf_is_perm {α : Type} (rev : Bool) (l : List α) : (Edit.permOf rev l).Perm l := Edit.permOf_perm rev l
+
+/-- non-vacuity of the three `_exact` theorems and of `perm_independent_partial`: a loaded well-formed file satisfies
+    the invariant (`Edit.TInv_load` from `startOKb`), the request is good, and both setters succeed in both orders -/
+example : (match parseStrict (B "go.mod") (B "module example.com/m\n\nrequire (\n\texample.com/a v1.0.0 // indirect; why\n\texample.com/b v1.2.3\n)\n\nrequire example.com/c/v2 v2.0.0 // note\n") none with
+    | .ok f =>
+      let want : List Edit.Want := [⟨B "example.com/e", B "v1.0.0", true⟩, ⟨B "example.com/a", B "v1.9.0", false⟩]
+      Edit.startOKb f && Edit.validArgsB (.setRequire want true) &&
+        (Edit.setRequire (Edit.load f) want (Edit.permOf true)).isOk && (Edit.setRequire (Edit.load f) want (Edit.permOf false)).isOk &&
+        (Edit.setRequireSeparateIndirect (Edit.load f) want (Edit.permOf true)).isOk &&
+        (Edit.setRequireSeparateIndirect (Edit.load f) want (Edit.permOf false)).isOk
+    | .error _ => false) = true := by decide +kernel
+
+example : (match parseWork (B "go.work") (B "go 1.21\n\nuse (\n\t./a\n\t./b\n)\n") none with
+    | .ok f =>
+      Edit.workStartOKb f && Edit.validArgsB (.setUse [(B "./b", []), (B "./d", [])] true) &&
+        (Edit.setUse (Edit.loadWork f) [(B "./b", []), (B "./d", [])] (Edit.permOf true)).isOk &&
+        (Edit.setUse (Edit.loadWork f) [(B "./b", []), (B "./d", [])] (Edit.permOf false)).isOk
+    | .error _ => false) = true := by decide +kernel
 
 /-- `lineLess` (lexical by tokens) is a strict weak order, and total -/
 theorem lineLess_strict_total :
